@@ -375,8 +375,17 @@ func TestVerif(t *testing.T) {
 		log.DefaultLogger.Out = log.FuncOutput(func(_ time.Time, _ bool, s string) { serverLog.add(s) }, func() error { return nil })
 	}
 	n := r.N(quickCases, thoroughCases)
+	if os.Getenv("VERIF_C03_ONLY") == "limits" { // drills only: the run is then inconclusive by min_observed
+		n = 0
+	}
 	for i := 0; i < n; i++ {
 		r.Run(i, fmt.Sprintf("session-%d", i), func(c *rep.Case) { runCase(t, r, c, i) })
+	}
+	// group L: transactions refused by the limits block itself (limits_test.go)
+	nl := r.N(quickLimitCases, thoroughLimitCases)
+	for j := 0; j < nl; j++ {
+		i := limitsBase + j
+		r.Run(i, fmt.Sprintf("limits-%d", j), func(c *rep.Case) { runLimitsCase(t, r, c, i) })
 	}
 }
 
